@@ -53,7 +53,21 @@ def make_pool(rng):
         bad[rng.randrange(10, len(bad))] ^= 0xFF
     pool.append((f"W{cc:x}", "Command", bytes(bad), None, None, False))
     rng.shuffle(pool)
-    return pool[: rng.randint(3, 6)]
+    pool = pool[: rng.randint(3, 6)]
+    # stand-alone structures with size-prefixed parts: whole, truncated inside a sized buffer (strict: the decode is
+    # abandoned with an error there), and the truncated one in warn mode - per-call state must not leak between them
+    tn = rng.choice(("TPM2B_DIGEST", "TPM2B_PUBLIC", "TPM2B_SENSITIVE_CREATE", "TPML_DIGEST", "TPMT_HA", "TPM2B_ECC_POINT", "TPMS_AUTH_COMMAND", "TPM2B_NV_PUBLIC"))
+    g.force = {}
+    g.buf_len = rng.choice((8, 20, 32))
+    sb, _ev = g.build(tn)
+    g.buf_len = None
+    pool.append((f"S{tn}", tn, sb, None, None, True))
+    if len(sb) > 3:
+        cut = sb[: rng.randrange(3, len(sb))]
+        pool.append((f"S{tn}cut", tn, cut, None, None, True))
+        pool.append((f"S{tn}cutw", tn, cut, None, None, False))
+    rng.shuffle(pool)
+    return pool
 
 
 class Live:
